@@ -50,6 +50,7 @@ class Requester:
         self.script: List[Any] = []
         self.default = ("resp", 500, None, None)
         self.park: Optional[Any] = None  # callable(method, url, headers) -> Future | None (C11)
+        self.suspend = False             # answer after one trip round the event loop (the reaction is bound at request time)
         self.n = 0
 
     async def async_http_request(self, method, url, headers=None, body=None):
@@ -69,6 +70,9 @@ class Requester:
             r = await fut
         else:
             r = self.script.pop(0) if self.script else self.default
+            entry[3] = tuple(r)
+            if self.suspend:
+                await asyncio.sleep(0)
         r = tuple(r)
         entry[3] = r
         self.n += 1
